@@ -64,6 +64,7 @@ type KDesc struct {
 	Must      int64     `json:"must"`
 	Epoch     uint64    `json:"epoch,omitempty"`
 	Raw       *HexBytes `json:"raw,omitempty"` // one well-formed CBOR item
+	Feat      []string  `json:"feat,omitempty"` // a claim WITHOUT omitempty: nil is written as null
 }
 
 func (k *KDesc) apply(x *XKClaims) {
@@ -71,6 +72,9 @@ func (k *KDesc) apply(x *XKClaims) {
 	x.KEpoch = KEpoch(k.Epoch)
 	if k.Raw != nil {
 		x.Raw = append(cbor.RawMessage{}, (*k.Raw)...)
+	}
+	if len(k.Feat) > 0 {
+		x.Feat = append([]string{}, k.Feat...)
 	}
 	if k.Blob != nil {
 		x.Blob = append([]byte{}, (*k.Blob)...)
@@ -127,6 +131,9 @@ func genK(r *Rng) *KDesc {
 	}
 	if r.Chance(1, 2) {
 		k.Epoch = uint64(1 + r.Intn(1<<30))
+	}
+	if r.Chance(1, 2) {
+		k.Feat = []string{textPool[r.Intn(len(textPool))]}
 	}
 	if r.Chance(1, 2) {
 		items := [][]byte{{0x01}, {0x43, 0xaa, 0xbb, 0xcc}, {0x82, 0x01, 0x62, 'h', 'i'}, {0xa1, 0x01, 0x02}, {0x19, 0x12, 0x34}, {0x65, 'h', 'e', 'l', 'l', 'o'}}
@@ -255,7 +262,7 @@ func genValidClaims(r *Rng, prof string) ClaimsDesc {
 			one := uint(1)
 			if r.Chance(1, 4) {
 				// the flag is asserted by presence; senders have been seen to use other values
-				one = []uint{0, 2, 255}[r.Intn(3)]
+				one = []uint{0, 2, 255, 1 << 22, 1 << 31, 1<<63 - 1}[r.Intn(6)]
 			}
 			d.NoMeas = &one
 			d.SwNil = r.Chance(1, 2)
@@ -461,6 +468,18 @@ func applyDefect(r *Rng, d *ClaimsDesc, defect string) bool {
 			return false
 		}
 		d.Sw[r.Intn(len(d.Sw))].Signer = hp(r.Bytes(badLen(r, 32, 48, 64)))
+	case "sw-several-bad":
+		// two or three malformed entries, in different ways, in one list
+		for len(d.Sw) < 3 {
+			d.Sw = append(d.Sw, genSw(r))
+		}
+		d.NoMeas = nil
+		p := r.Perm(len(d.Sw))
+		d.Sw[p[0]].MVal = nil
+		d.Sw[p[1]].Signer = hp(r.Bytes(5))
+		if r.Chance(1, 2) {
+			d.Sw[p[2]].MVal = hp(r.Bytes(7))
+		}
 	case "bad-extra":
 		// valid under the base profile's rules, invalid under the extension's own Validate()
 		if d.Prof != "xp1" && d.Prof != "xp2" {
@@ -484,7 +503,7 @@ func applyDefect(r *Rng, d *ClaimsDesc, defect string) bool {
 var allDefects = []string{"no-clientid", "no-lifecycle", "no-implid", "no-nonce", "no-instid", "no-bootseed",
 	"no-profile", "bad-lifecycle", "bad-implid", "bad-bootseed", "bad-nonce", "two-nonces", "bad-instid-len",
 	"bad-instid-type", "bad-certref", "empty-vsi", "no-sw", "sw-and-nomeas", "sw-no-mval", "sw-no-signer",
-	"sw-bad-mval", "sw-bad-signer", "wrong-profile", "bad-extra", "bad-extra"}
+	"sw-bad-mval", "sw-bad-signer", "wrong-profile", "bad-extra", "bad-extra", "sw-several-bad"}
 
 func genInvalidClaims(r *Rng, prof string) ClaimsDesc {
 	d := genValidClaims(r, prof)
